@@ -910,6 +910,10 @@ def check_terminal(sim):
             return
     va = sim.series(root, "values")
     ca = sim.series(root, "cash")
+    if sim.completed and len(va) != len(sim.dates):
+        # value and cash stay constant on *every* later date: those rows have to exist (the clock runs on to the end of the data)
+        sim.violation("bankrupt_not_constant", "bankrupt on date #%d: the recorded history ends on %s, %d of the %d dates of the data have no row" % (tb, root.now, len(sim.dates) - len(va), len(sim.dates) - 1), {"truncated": True})
+        return
     tol = REL * (abs(va[i0]) + sim.cfg["capital"] + 1)
     for i in range(i0 + 1, len(va)):
         if abs(va[i] - va[i0]) > tol or abs(ca[i] - ca[i0]) > tol:
